@@ -40,6 +40,14 @@ add('C05', 'model_checking',
     'TLA+ spec RunModes.tla: TLC checks the transcribed runModeTry/runModeTryPipe loops against the declarative pipeline rule for every block up to the bound and exports the case table; every block is executed by the real interpreter (try{}, trypipe{}, runmode ... function) and compared',
     'All blocks of <=4 (thorough <=5) commands x {try, trypipe} are enumerated by TLC with the invariant operational = declarative; each is run as a `try`/`trypipe` block and as a function with a `runmode` directive; commands that ran and the exit number must equal the table.',
     'as C04; tryerr variants excluded (not in the property)', 'DESIGN §6 C05')
+add('C03', 'model_checking',
+    'TLA+ spec Pipeline.tla: TLC explores all interleavings of the stage processes of every pipeline in the bound (termination under fairness, no deadlock, output = Seq(P)); the exported program table is executed many times under seeded schedule perturbation at the hook points and every run compared with Seq(P)',
+    'The concurrent model (one process per stage, bounded channels, back-pressure, EOF after close, aggregating stages) is checked exhaustively against the sequential meaning for every pipeline of <=3 stages; the same programs (plus the C04/C05 chain programs) run 6 (thorough 40) times each on the real interpreter with random yields/sleeps injected at every process life-cycle step and pipe lock region; any run whose stdout, stderr or exit number differs from the TLC value, or that hangs, is a violation.',
+    'perturbation explores schedules randomly, not exhaustively, on the real code; vocabulary limited to a/foreach/out/err/mtac/functions and the chain operators', 'DESIGN §6 C03')
+add('C28', 'model_checking',
+    'RunModes.tla invariant Released (every process registered by compile is released exactly once in every scheduler branch) checked by TLC; FID register/deregister event logs recorded under the real table mutex while programs run concurrently are validated by TLC against FidTrace.tla (FidUnique, QuietEmpty)',
+    'TLC proves the release accounting of the three schedulers for all blocks <=4 commands; the real interpreter then runs thousands of those blocks plus structured programs (failing casts, break/continue/return, nested functions, aborted try) 8 at a time per process under schedule perturbation; each process logs FID events in mutex order and TLC checks on the log that no FID is handed out twice and that nothing rooted in a finished program is still registered.',
+    'quiet = program returned + up to 2 s for asynchronous deregistration; programs are attributed through parent links logged at registration', 'DESIGN §6 C28')
 
 
 def main():
